@@ -79,7 +79,10 @@ fn algebra(term: &Sx, libs: &BTreeMap<String, Vec<String>>) -> Option<BTreeMap<S
         _ => {
             let key = term.to_text();
             let exports = libs.get(&key)?;
-            Some(exports.iter().map(|e| (e.clone(), format!("{}:{}", key, e))).collect())
+            // what (lt facade) exports ARE bindings of (lt one): one name reaching a declaration
+            // through both is one binding, not a conflict
+            let home = if key == "(lt facade)" { "(lt one)".to_string() } else { key.clone() };
+            Some(exports.iter().map(|e| (e.clone(), format!("{}:{}", home, e))).collect())
         }
     }
 }
@@ -212,6 +215,10 @@ fn generate_c(seed: u64, quick: bool) -> Value {
         libs.insert("(lt big)".into(), (0..20).map(|i| format!("n{}", i)).collect());
     }
     if rng.chance(1, 4) {
+        // a library that passes on two of (lt one)'s exports under their own names
+        libs.insert("(lt facade)".into(), vec!["a".into(), "c".into()]);
+    }
+    if rng.chance(1, 4) {
         // a library whose exports are native procedures (re-exported from the bundled base
         // library, or handed over natively): values with an identity of their own
         libs.insert("(lt procs)".into(), PROC_EXPORTS.iter().map(|(e, _)| e.to_string()).collect());
@@ -287,13 +294,16 @@ fn export_value(lib: &str, export: &str) -> i64 {
     if lib == "(lt big)" {
         return 300 + export[1..].parse::<i64>().unwrap_or(0);
     }
-    if lib != "(lt one)" {
+    if lib != "(lt one)" && lib != "(lt facade)" {
         return 205;
     }
     100 + (export.as_bytes()[0] as i64 - b'a' as i64) + 1
 }
 
 fn lib_text(key: &str, exports: &[String]) -> String {
+    if key == "(lt facade)" {
+        return format!("(define-library (lt facade) (import (lt one)) (export {}))", exports.join(" "));
+    }
     if key == "(lt procs)" {
         return format!(
             "(define-library (lt procs) (import (scheme base)) (export {}))",
